@@ -1,7 +1,8 @@
 (* C02, header clauses: the model of frame/encode.go EncodeHeader / frame/decode.go DecodeHeader against the
    independent transcription of section 2 of the specifications (spec/SpecFrame.v).
    (1) hdr_bytes (the bytes EncodeHeader emits for a valid header) = spec_header;
-   (2) DecodeHeader accepts a 8/9-byte header exactly when spec_header_acceptable (version byte, opcode) holds:
+   (2) DecodeHeader accepts a 8/9-byte header exactly when spec_header_acceptable_strict (version byte, opcode) holds
+       (the opcode must be known to THAT version: 0xFF only with a DSE version):
        the decision is a function of those two bytes only (shown for arbitrary remaining bytes), and the two decision
        functions - the go2coq-generated IsSupported/IsValid/IsRequest/IsResponse and the specification's table - agree on
        all 2^16 pairs (finite domain, vm_compute lifted by forallb_forall). *)
@@ -39,6 +40,7 @@ Proof. intro H. destruct (supported_cases _ H) as [->|[->|[->|[->|[->| ->]]]]]; 
 Definition model_accept (vb op : Z) : bool :=
   is_ok (CheckSupportedProtocolVersion (Z.land vb 127)) &&
   is_ok (CheckValidOpCode op) &&
+  dse_opcode_ok (Z.land vb 127) op &&
   (if Z.gtb (Z.land vb 128) 0 then is_ok (CheckResponseOpCode op) else is_ok (CheckRequestOpCode op)).
 
 Lemma read_byte_cons b l : read_byte (b :: l) = DOk b l.
@@ -77,6 +79,8 @@ Proof.
     change (read_int (l1 :: l2 :: l3 :: l4 :: rest)) with (DOk (wrap_i 32 (be_val [l1; l2; l3; l4])) rest).
     destruct (is_ok (CheckValidOpCode op)); cbn [rguard andb]; [|reflexivity].
     unfold bind at 1, ret at 1.
+    destruct (dse_opcode_ok (Z.land vb 127) op); cbn [rguard andb]; [|reflexivity].
+    unfold bind at 1, ret at 1.
     destruct (Z.gtb (Z.land vb 128) 0);
       [destruct (is_ok (CheckResponseOpCode op))|destruct (is_ok (CheckRequestOpCode op))]; cbn [rguard]; reflexivity.
   - destruct sid as [|s1 [|? ?]]; try discriminate Hs.
@@ -87,6 +91,8 @@ Proof.
     unfold bind at 1.
     change (read_int (l1 :: l2 :: l3 :: l4 :: rest)) with (DOk (wrap_i 32 (be_val [l1; l2; l3; l4])) rest).
     destruct (is_ok (CheckValidOpCode op)); cbn [rguard andb]; [|reflexivity].
+    unfold bind at 1, ret at 1.
+    destruct (dse_opcode_ok (Z.land vb 127) op); cbn [rguard andb]; [|reflexivity].
     unfold bind at 1, ret at 1.
     destruct (Z.gtb (Z.land vb 128) 0);
       [destruct (is_ok (CheckResponseOpCode op))|destruct (is_ok (CheckRequestOpCode op))]; cbn [rguard]; reflexivity.
@@ -110,11 +116,11 @@ Lemma in_byte_values x : 0 <= x < 256 -> In x byte_values.
 Proof. intro H. unfold byte_values. apply in_map_iff. exists (Z.to_nat x). split; [lia|]. apply in_seq. lia. Qed.
 
 Definition accept_agree_all : bool :=
-  forallb (fun vb => forallb (fun op => Bool.eqb (spec_header_acceptable vb op) (model_accept vb op)) byte_values) byte_values.
+  forallb (fun vb => forallb (fun op => Bool.eqb (spec_header_acceptable_strict vb op) (model_accept vb op)) byte_values) byte_values.
 Lemma accept_agree_all_true : accept_agree_all = true.
 Proof. vm_compute. reflexivity. Qed.
 
-Theorem accept_agree vb op : 0 <= vb < 256 -> 0 <= op < 256 -> model_accept vb op = spec_header_acceptable vb op.
+Theorem accept_agree vb op : 0 <= vb < 256 -> 0 <= op < 256 -> model_accept vb op = spec_header_acceptable_strict vb op.
 Proof.
   intros Hv Ho. pose proof accept_agree_all_true as H. unfold accept_agree_all in H.
   rewrite forallb_forall in H. specialize (H vb (in_byte_values vb Hv)).
@@ -123,7 +129,7 @@ Proof.
 Qed.
 
 (* rejection clause of C02 *)
-Theorem header_reject vb op : 0 <= vb < 256 -> 0 <= op < 256 -> spec_header_acceptable vb op = false ->
+Theorem header_reject vb op : 0 <= vb < 256 -> 0 <= op < 256 -> spec_header_acceptable_strict vb op = false ->
   forall fl sid len rest, length sid = sid_width vb -> length len = 4%nat ->
   decode_header (vb :: fl :: sid ++ op :: len ++ rest) = DErr.
 Proof.
@@ -132,7 +138,7 @@ Proof.
 Qed.
 
 (* ... and the converse: an acceptable pair is decoded, for every flags / stream / length bytes *)
-Theorem header_accept vb op : 0 <= vb < 256 -> 0 <= op < 256 -> spec_header_acceptable vb op = true ->
+Theorem header_accept vb op : 0 <= vb < 256 -> 0 <= op < 256 -> spec_header_acceptable_strict vb op = true ->
   forall fl sid len rest, length sid = sid_width vb -> length len = 4%nat ->
   decode_header (vb :: fl :: sid ++ op :: len ++ rest) = DOk (decoded_header vb fl sid op len) rest.
 Proof.
